@@ -33,7 +33,7 @@ def check(run, repo, world):
     folder = Folder(world)
     rx = cmdtable.registries(world, folder)
     rows = cmdtable.extract(world, folder, rx)
-    run.floor("concrete command classes", len(rows), 329)
+    run.floor("concrete command classes", len(rows), 329, defer=True)
     spec = cmdtable.load_spec()
     run.exhaustive = True
     byname = {}
